@@ -1,4 +1,5 @@
 // schedmc: property C24 (solver instances in different threads do not interfere).
+// VERIF_VARIANTS: rel asan tsan
 // A cooperative scheduler runs 2..3 REAL threads one at a time.  Scheduling points: the hooks at every access to the
 // process-global free list of big rationals (OSMT_VERIF_SCHED pool.alloc / pool.alloc.mid / pool.release) and every
 // pthread_mutex_lock of a managed thread (interposed below; a contended lock blocks the thread in the scheduler, so
